@@ -10,7 +10,7 @@
       insert               (level is an INPUT: the RNG is outside the model),
                            select_neighbors_heuristic, back links, pruning to M / M0
                                                                 hnsw.rs l.188, l.562, l.595
-      remove               (drops the node, purges every link, re-points the entry with
+      hnsw_remove               (drops the node, purges every link, re-points the entry with
                             [nodes.keys().next()] — HashMap iteration order is outside the
                             model, so the picked key is an INPUT, validated to be a live key)
                                                                 hnsw.rs l.383
@@ -25,8 +25,8 @@
                (which element is popped among equal distances is a matter of std's heap layout;
                the theorems only use that push/pop preserve the contents).
     No proofs in this file. *)
-From Coq Require Import ZArith List Bool Lia.
-Import ListNotations.
+From Coq Require Export ZArith List Bool Lia Permutation Sorted.
+Export ListNotations.
 Open Scope Z_scope.
 
 Definition zlen {A} (l : list A) : Z := Z.of_nat (length l).
@@ -177,12 +177,12 @@ Section Hnsw.
 
   Definition empty : state := mk_state [] None 0.
 
-  Fixpoint find (m : nodemap) (id : Z) : option node :=
+  Fixpoint lookup (m : nodemap) (id : Z) : option node :=
     match m with
     | [] => None
-    | (k, n) :: t => if k =? id then Some n else find t id
+    | (k, n) :: t => if k =? id then Some n else lookup t id
     end.
-  Definition has (m : nodemap) (id : Z) : bool := match find m id with Some _ => true | None => false end.
+  Definition has (m : nodemap) (id : Z) : bool := match lookup m id with Some _ => true | None => false end.
   Definition keys (m : nodemap) : list Z := map fst m.
 
   (** HashMap::insert: replace or add *)
@@ -202,10 +202,10 @@ Section Hnsw.
 
   (** node_distance: f32::MAX for a missing node *)
   Definition node_distance (m : nodemap) (q : V) (id : Z) : D :=
-    match find m id with Some n => dist q (fst n) | None => top end.
+    match lookup m id with Some n => dist q (fst n) | None => top end.
   (** [if let Some(node) = nodes.get(&id) && layer < node.neighbors.len() { node.neighbors[layer] }] *)
   Definition nbrs (m : nodemap) (id : Z) (layer : nat) : list Z :=
-    match find m id with Some n => nth layer (snd n) [] | None => [] end.
+    match lookup m id with Some n => nth layer (snd n) [] | None => [] end.
 
   (** number of ids mentioned anywhere: fuel for the loops *)
   Definition node_size (n : node) : nat := fold_right (fun l a => (length l + a)%nat) O (snd n).
@@ -299,7 +299,7 @@ Section Hnsw.
     | [] => sel
     | c :: t =>
       if mm <=? zlen sel then sel else
-      match find m (fst c) with
+      match lookup m (fst c) with
       | None => select_loop m t mm sel
       | Some nd =>
         let cv := fst nd in
@@ -316,7 +316,7 @@ Section Hnsw.
 
   (** first pass: back links, who needs pruning *)
   Definition add_back (id : Z) (lc : nat) (mm : Z) (acc : nodemap * list Z) (nid : Z) : nodemap * list Z :=
-    match find (fst acc) nid with
+    match lookup (fst acc) nid with
     | Some nd =>
       if Nat.ltb lc (length (snd nd)) then
         let l' := nth lc (snd nd) [] ++ [id] in
@@ -327,7 +327,7 @@ Section Hnsw.
     end.
   (** second pass: distances from the neighbour's own vector *)
   Definition prune_entry (m : nodemap) (lc : nat) (nid : Z) : list (Z * list elt) :=
-    match find m nid with
+    match lookup m nid with
     | Some nd =>
       if Nat.ltb lc (length (snd nd))
       then [(nid, map (fun x => (x, node_distance m (fst nd) x)) (nth lc (snd nd) []))]
@@ -339,7 +339,7 @@ Section Hnsw.
     if zlen l <=? mm then l else map fst (takez mm (sort_by leb ds)).
   (** third pass *)
   Definition apply_prune (lc : nat) (mm : Z) (m : nodemap) (e : Z * list elt) : nodemap :=
-    match find m (fst e) with
+    match lookup m (fst e) with
     | Some nd =>
       if Nat.ltb lc (length (snd nd))
       then upd m (fst e) (fun n => set_layer n lc (prune_list (nth lc (snd n) []) (snd e) mm))
@@ -377,7 +377,7 @@ Section Hnsw.
       if Nat.ltb cur_max level then mk_state m1 (Some id) level else mk_state m1 (Some ep) cur_max
     end.
 
-  (** HnswIndex::remove.  [pick] = what [nodes.keys().next()] returned (an input; normalised to a
+  (** HnswIndex::hnsw_remove.  [pick] = what [nodes.keys().next()] returned (an input; normalised to a
       live key so that the model is total). *)
   Definition purge (id : Z) (n : node) : node :=
     (fst n, map (filter (fun x => negb (x =? id))) (snd n)).
@@ -386,7 +386,7 @@ Section Hnsw.
     | Some p => if has m p then Some p else hd_error (keys m)
     | None => hd_error (keys m)
     end.
-  Definition remove (s : state) (id : Z) (pick : option Z) : state * bool :=
+  Definition hnsw_remove (s : state) (id : Z) (pick : option Z) : state * bool :=
     if has (nodes s) id then
       let m := map (fun kv => (fst kv, purge id (snd kv))) (del (nodes s) id) in
       let e := match entry s with
@@ -401,7 +401,7 @@ Section Hnsw.
   Definition step (c : config) (s : state) (o : op) : state :=
     match o with
     | OpInsert id v level => insert c s id v level
-    | OpRemove id pick => fst (remove s id pick)
+    | OpRemove id pick => fst (hnsw_remove s id pick)
     end.
   Definition run (c : config) (ops : list op) : state := fold_left (step c) ops empty.
 
@@ -424,7 +424,7 @@ Arguments nodes {V}.
 Arguments entry {V}.
 Arguments max_level {V}.
 Arguments empty {V}.
-Arguments find {V}.
+Arguments lookup {V}.
 Arguments has {V}.
 Arguments keys {V}.
 Arguments put {V}.
@@ -434,7 +434,7 @@ Arguments nbrs {V}.
 Arguments fuel_of {V}.
 Arguments purge {V}.
 Arguments norm_pick {V}.
-Arguments remove {V}.
+Arguments hnsw_remove {V}.
 Arguments mentioned {V}.
 Arguments links_closed {V}.
 Arguments reach0 {V}.
@@ -445,7 +445,6 @@ Arguments OpRemove {V}.
 Definition order_ok {D} (leb : D -> D -> bool) : Prop :=
   (forall a b, leb a b = true \/ leb b a = true) /\
   (forall a b c, leb a b = true -> leb b c = true -> leb a c = true).
-From Coq Require Import Permutation.
 (** a heap keeps exactly what was pushed and not yet popped (order inside is its own business) *)
 Definition heap_ok {E} (push : E -> list E -> list E) (pop : list E -> option (E * list E)) : Prop :=
   (forall x h, Permutation (push x h) (x :: h)) /\
@@ -467,6 +466,9 @@ Section Bundled.
   Definition xdist (m : nodemap V) (q : V) (id : Z) : D := node_distance V D (x_dist X) (x_top X) m q id.
   Definition xsearch_layer (m : nodemap V) (q : V) (ep ef : Z) (layer : nat) : list (Z * D) :=
     search_layer V D (x_dist X) (x_top X) (x_leb X) (x_ltb X) (x_cpush X) (x_cpop X) (x_rpush X) (x_rpop X) (x_rpeek X) m q ep ef layer.
+  (** the node the layer-0 beam search of a query starts from (greedy descent from the entry) *)
+  Definition xstart (s : state V) (q : V) : option Z :=
+    option_map (descend V D (x_dist X) (x_top X) (x_ltb X) (nodes s) q (max_level s) 0%nat) (entry s).
   Definition xsearch (s : state V) (q : V) (k ef : Z) : list (Z * D) :=
     search_with_ef V D (x_dist X) (x_top X) (x_leb X) (x_ltb X) (x_cpush X) (x_cpop X) (x_rpush X) (x_rpop X) (x_rpeek X) s q k ef.
   Definition xbatch (s : state V) (qs : list V) (k ef : Z) : list (list (Z * D)) :=
